@@ -156,6 +156,7 @@ int GRIil_convert(const void * inbuf,gr_interlace_t inil,void * outbuf,
 
 #include "hdf_priv.h"
 #include "mfgr_priv.h"
+#include "vg_priv.h"
 
 #ifdef H4_HAVE_LIBSZ /* we have the library */
 #include "szlib.h"
@@ -1896,6 +1897,30 @@ done:
 
 /*--------------------------------------------------------------------------
  NAME
+    GRIattr_setcount
+ PURPOSE
+    Internal routine to make an attribute Vdata hold exactly 'count' records
+    after its values have been re-written (VSwrite only ever extends a Vdata,
+    so an attribute re-set with fewer values would keep its old count).
+ RETURNS
+    SUCCEED/FAIL
+--------------------------------------------------------------------------*/
+static int
+GRIattr_setcount(int32 AttrID, int32 count)
+{
+    vsinstance_t *w;
+
+    if (NULL == (w = (vsinstance_t *)HAatom_object(AttrID)) || w->vs == NULL)
+        return FAIL;
+    if (w->vs->nvertices > count) {
+        w->vs->nvertices = count;
+        w->vs->marked    = 1;
+    }
+    return SUCCEED;
+} /* end GRIattr_setcount() */
+
+/*--------------------------------------------------------------------------
+ NAME
     GRIup_attr_data
  PURPOSE
     Internal routine to update/create the attribute data
@@ -1943,6 +1968,10 @@ GRIup_attr_data(int32 hdf_file_id, at_info_t *attr_ptr)
             HGOTO_ERROR(DFE_BADFIELDS, FAIL);
         } /* end if */
         if (VSwrite(AttrID, attr_ptr->data, attr_ptr->len, FULL_INTERLACE) == FAIL) {
+            VSdetach(AttrID);
+            HGOTO_ERROR(DFE_VSWRITE, FAIL);
+        } /* end if */
+        if (GRIattr_setcount(AttrID, attr_ptr->len) == FAIL) {
             VSdetach(AttrID);
             HGOTO_ERROR(DFE_VSWRITE, FAIL);
         } /* end if */
@@ -4502,6 +4531,10 @@ GRsetattr(int32 id, const char *name, int32 attr_nt, int32 count, const void *da
                     HGOTO_ERROR(DFE_BADFIELDS, FAIL);
                 } /* end if */
                 if (VSwrite(AttrID, data, count, FULL_INTERLACE) == FAIL) {
+                    VSdetach(AttrID);
+                    HGOTO_ERROR(DFE_VSWRITE, FAIL);
+                } /* end if */
+                if (GRIattr_setcount(AttrID, count) == FAIL) {
                     VSdetach(AttrID);
                     HGOTO_ERROR(DFE_VSWRITE, FAIL);
                 } /* end if */
